@@ -789,58 +789,102 @@ def rules(rep, m):
         cx = FuncCtx(m, f)
         hpn = f.params[0]["name"]
         keyp = f.params[1]["name"]
-        hv = [d for d in walk(f.body) if d["kind"] == "VarDecl" and kids(d) and strip(kids(d)[0], casts=True)["kind"] == "CallExpr"
-              and callee_ref(strip(kids(d)[0], casts=True)) == "hash_key"
-              and [render(strip(a_, casts=True)) for a_ in kids(strip(kids(d)[0], casts=True))[1:]] == [hpn, keyp]
-              and "const" not in (d.get("type") or "")]
-        if len(hv) != 1:
-            raise AnalysisBroken("%s: probe index not found" % fn)
-        hvn = hv[0]["name"]
-        steps = [cx.canon(r_) for l, r_, k_, n_ in inv.stores(f) if r_ is not None and render(strip(l, casts=True)) == hvn]
+        # path traces (engine TRACE): loop entry values, assumed conditions and returned values in canonical form,
+        # independent of whether the loop is for(;;)+returns, do-while+break or a for loop with the test in its head
+        from ..engines import trace as TR
+        tpaths = []
+        TR.run_traces(m, f, lambda dom, flow, s_, tr, why, where, ev: tpaths.append((list(tr), ev[1] if ev else None, where))
+                      if why.startswith("return") else None)
+        # leaving an endless loop after the representative iteration and falling off the end is an artefact of the
+        # loop abstraction, not a path of the program
+        tpaths = [t_ for t_ in tpaths if t_[1] is not None]
+        if not tpaths:
+            raise AnalysisBroken("%s: no return path traced" % fn)
+        loopvars = {}
+        for tr, rv, wh in tpaths:
+            for e in tr:
+                if e[0] == "loop":
+                    for vn, vv in e[2]:
+                        if "heap_exp_cur" in vv and ">>" in vv and keyp in vv:
+                            loopvars[vn] = vv
+        if len(loopvars) != 1:
+            raise AnalysisBroken("%s: probe index not found (loop variables started from the hash: %s)" % (fn, sorted(loopvars)))
+        hvn, START = next(iter(loopvars.items()))
+        steps = [cx.canon(r_) for l, r_, k_, n_ in inv.stores(f) if r_ is not None and render(strip(l, casts=True)) == hvn
+                 and cx.canon(r_) not in (START,) and not re.fullmatch(r"hash_key\(.*\)", render(strip(r_, casts=True)))
+                 and cx.canon(r_) != START]
+        steps = [st_ for st_ in steps if "heap_exp_cur" not in st_]
         want_step = {"((%s + 1) & (%s->hash_size - 1))" % (hvn, hpn), "((%s->hash_size - 1) & (%s + 1))" % (hpn, hvn)}
         r10.instance("%s: start hash_key(%s), step %s" % (fn, keyp, steps))
-        if len(steps) != 1 or steps[0] not in want_step:
+        if len(set(steps)) != 1 or steps[0] not in want_step:
             rep.finding(r10, fn, "probe:step", "%s advances its probe index by %s, not (i + 1) & (hash_size - 1): it leaves the "
                         "map or skips slots the other prober uses" % (fn, steps), where=m.rel(f.where))
             r10.fail()
         else:
             r10.ok()
-        subs = {render(strip(kids(y)[1], casts=True)) for y in walk(f.body) if y["kind"] == "ArraySubscriptExpr"}
+        subs = set()
+        for y in walk(f.body):
+            if y["kind"] == "ArraySubscriptExpr":
+                subs.add(render(cx.resolve(kids(y)[1])))
         if subs != {hvn}:
             rep.finding(r10, fn, "probe:subscript", "%s subscripts the map with %s" % (fn, sorted(subs)), where=m.rel(f.where))
             r10.fail()
         else:
             r10.ok()
-        # stop conditions: (condition canon, returned canon)
-        stops = []
-        for y in walk(f.body):
-            if y["kind"] == "IfStmt":
-                rr = [x for x in walk(kids(y)[1]) if x["kind"] == "ReturnStmt" and kids(x)]
-                if rr:
-                    mp_ = lambda t_: re.sub(r"(\b\w+->)?\b\w+\[%s\]" % hvn, "MAP[i]", t_)
-                    cnd = kids(y)[0]
-                    ctext = mp_(cx.canon(cnd))
-                    c0 = strip(cnd, casts=True)
-                    if c0["kind"] == "BinaryOperator" and c0.get("opcode") == "==" and \
-                            {strip(z, casts=True)["kind"] for z in kids(c0)} == {"DeclRefExpr"}:
-                        nm_ = [strip(z, casts=True)["ref"]["name"] for z in kids(c0)]
-                        other = [n_ for n_ in nm_ if n_ != hvn]
-                        dd = [d for d in walk(f.body) if d["kind"] == "VarDecl" and other and d.get("name") == other[0] and kids(d)]
-                        if hvn in nm_ and dd and render(strip(kids(dd[0])[0], casts=True)) == hvn:
-                            ctext = "(i == START)"
-                    rtext = mp_(cx.canon(kids(rr[0])[0]))
-                    stops.append((ctext, "i" if rtext == hvn else rtext))
-        r10.instance("%s stops: %s" % (fn, stops))
-        rep.sample({"rule": "R-C02-10", "function": fn, "stops": stops, "step": steps})
+        I = r"%s(?:#L\d+)?'?" % re.escape(hvn)
+        MAPI = r"(?:\w+->)?\w+\[%s\]" % I
+        def has(tr, pat, truth):
+            return any(e[0] == "assume" and re.fullmatch(pat, e[1]) and e[2] is truth for e in tr)
+        KEY = r"\(%s\.key == %s\)|\(%s == %s\.key\)" % (MAPI, re.escape(keyp), re.escape(keyp), MAPI)
+        KEYN = r"\(%s\.key != %s\)" % (MAPI, re.escape(keyp))
+        EMPTY = r"\(%s\.key == 0\)" % MAPI
+        EMPTYN = r"\(%s\.key != 0\)" % MAPI
+        FREE = r"\(%s\.heap_index == 0\)" % MAPI
+        FREEN = r"\(%s\.heap_index != 0\)" % MAPI
+        summary = []
+        bad = None
         if fn == "cmi_hash_find_index":
-            need = [("(MAP[i].key == %s)" % keyp, "MAP[i].heap_index"), ("(MAP[i].key == 0)", "0")]
-            okf = all(nd in stops for nd in need) and ("(i == START)", "0") in stops
-            # the key test comes before the empty test
-            okf = okf and stops.index(need[0]) < stops.index(need[1])
+            saw = {"key": False, "empty": False, "wrap": False}
+            for tr, rv, wh in tpaths:
+                keyhit = has(tr, KEY, True) or has(tr, KEYN, False)
+                empty = has(tr, EMPTY, True) or has(tr, EMPTYN, False)
+                wrap = any(e[0] == "assume" and START in e[1] and ((" == " in e[1] and e[2] is True) or (" != " in e[1] and e[2] is False))
+                           for e in tr)
+                summary.append((rv, "key" if keyhit else "empty" if empty else "wrap" if wrap else "?"))
+                if re.fullmatch(r"%s\.heap_index" % MAPI, rv or ""):
+                    if not keyhit:
+                        bad = "returns a heap index without having matched the key (%s)" % wh
+                    saw["key"] = True
+                elif rv == "0":
+                    if keyhit:
+                        bad = "returns 'not found' on a path where the key was matched (%s)" % wh
+                    elif empty:
+                        saw["empty"] = True
+                    elif wrap:
+                        saw["wrap"] = True
+                    else:
+                        bad = "returns 'not found' without having reached a never-used slot or wrapped around (%s)" % wh
+                else:
+                    bad = "returns %s (%s)" % (rv, wh)
+            if bad is None and not all(saw.values()):
+                bad = "missing stop condition(s): %s" % sorted(k_ for k_, v_ in saw.items() if not v_)
         else:
-            okf = stops == [("(MAP[i].heap_index == 0)", "i")]
-        if not okf:
-            rep.finding(r10, fn, "probe:stops", "%s leaves its probe loop on %s" % (fn, stops), where=m.rel(f.where))
+            sawfree = False
+            for tr, rv, wh in tpaths:
+                summary.append((rv, [e[1] for e in tr if e[0] == "assume"][-1:] ))
+                if not re.fullmatch(I, rv or ""):
+                    bad = "returns %s, not the probe index (%s)" % (rv, wh)
+                for e in tr:
+                    if e[0] == "assume" and ".key" in e[1]:
+                        bad = "decides on the key field (%s): a tombstone (key kept, heap index 0) would never be reused" % e[1]
+                if has(tr, FREE, True) or has(tr, FREEN, False):
+                    sawfree = True
+            if bad is None and not sawfree:
+                bad = "no path leaves the loop on a free slot (heap index 0)"
+        r10.instance("%s paths: %s" % (fn, summary))
+        rep.sample({"rule": "R-C02-10", "function": fn, "paths": [list(map(str, x_)) for x_ in summary], "step": steps})
+        if bad:
+            rep.finding(r10, fn, "probe:stops", "%s %s" % (fn, bad), where=m.rel(f.where))
             r10.fail()
         else:
             r10.ok()
